@@ -17,6 +17,8 @@ REQUIRED_THEOREMS = [
     "TapkeeVerif.Tsne.sqEuclid_operator_matters",
     "TapkeeVerif.Tsne.bisect_bracket",
     "TapkeeVerif.Tsne.bisect_found",
+    "TapkeeVerif.Tsne.bisect_converges",
+    "TapkeeVerif.Tsne.bisect_converges_real",
     "TapkeeVerif.Tsne.P_dense_sum_one",
     "TapkeeVerif.Tsne.P_dense_symm",
     "TapkeeVerif.Tsne.sqDistance_not_metric",
